@@ -71,6 +71,22 @@ CHECKS["C15"] = dict(
   technique="Lean 4 proof (invariants over event histories) + differential correspondence (go test -overlay)",
   design="§10 C15")
 
+CHECKS["C20"] = dict(
+  text="Lean theorems over every reachable state of an interleaving transition system (signals, main-loop sections, worker statements, release-goroutine sections, retirement completions, every path choice incl. a failure at each stage): at most one reload/suspend in progress (tokens = [pending]); a signal taken while one is in progress — in the main select or in the hand-off's ready wait — is answered busy and changes nothing else (refusal_is_pure, signal_while_in_progress_is_refused_busy); the failure-report suppression counter is balanced and never clamped; every settled state is clean (no pending, suppression lifted, no stale busy report — no_stale_busy_when_idle over all refuser x releaser interleavings), internal steps terminate (ranking function) and the next signal is accepted again. The per-path effects of the worker body, the run-state handler and the signal dispatch are REGENERATED from cmd/run.go by a go/ast path extractor and checked against the model tables on every run; the real queue/release/finish/ready-wait/progress-file functions and the real dialer suppression counter run under forced schedules and are compared with the model after every atomic section.",
+  note="Trusted: Lean kernel + standard axioms; atomicity granularity = code between two hook calls/statements; worker/handler bodies are tied by path extraction, not executed; liveness relative to the ready-wait timer, retirement completion and fair scheduling; `answered` clause is _partial (answered_full stated, unproved).",
+  technique="Lean 4 proof (inductive invariant + ranking function over an interleaving transition system) + regenerated path tables (go/ast) + schedule-forced correspondence (go test -overlay)",
+  design="§10 C20")
+CHECKS["C11"] = dict(
+  text="Lean theorems, all full strength: the documented meaning of full / suffix / leading-dot suffix / keyword / regex(oracle) patterns on the normalised (lower-cased, one trailing dot stripped) name; a set's bit is set iff one of its valid patterns matches, independently of all other sets; invalid patterns are skipped without effect; Build fails only as documented; AND the bit-exact model of the implementation: CompactBitList Get/Set/Append for every unit size, countZeros = rank0 and selectIthOne = select1 with the init() caches, and the full LOUDS correctness theorem trie_hasPrefix_eq_spec (for any alphabet of 1..256 bytes, any non-empty key list, any word: NewTrie succeeds and HasPrefix = some stored key is a prefix of the word), composed into domain_matcher_correct (MatchDomainBitmap through the packed tries = documented meaning). Tied to /repo by bit-exact comparison of the real bitlist buffers and trie arrays and by matcher sessions over indices 0..1023 with probes derived from the patterns, up to 50 000-pattern sets.",
+  note="Trusted: Lean kernel + standard axioms; Go regexp and the Aho-Corasick Contains are oracles (checked against substring containment by the tie); ASCII names; the empty keyword never matches (stated as a theorem).",
+  technique="Lean 4 proof (bit-exact LOUDS/rank-select/bitlist correctness + pattern semantics) + differential correspondence (go test -overlay, white-box buffer dumps)",
+  design="§10 C11")
+CHECKS["C13"] = dict(
+  text="Lean theorems: for the per-flow UDP task queue as an interleaving transition system of the code's atomic steps (any channel capacity, any number of producers, idle GC, overflow, re-creation): done k ++ pending k = accepted k (exactly once, in order), no cross-flow execution, one convoy at a time per flow, recycled channels are empty, work is never stranded (repaired protocol after fixes 4640436/351fba0; Lean witnesses that the pre-fix protocol violates it); conn-state tuple tracker: refcount = owners, a kernel delete exactly when the last owner leaves, hand-over never deletes, waiters woken; drain tickets: active = outstanding, idle closed iff 0, release idempotent; endpoint keys: same source (+dst/scope for bound flows) iff same key; endpoint pool (sequential spec + lock-structure TSys): hand-out iff usable, failure markers block dialing, retired/dead never handed out again, transport closed at most once with the endpoint, single dial under concurrent GetOrCreate. Tied to /repo by schedule replay through the verif yield points on the real UdpTaskPool under synctest, op sequences on the real tracker/drain/pool with fake dialers, and implementation-side oracles (nothing lost/reordered, nothing closed twice, quiet-period leak check).",
+  note="Trusted: Lean kernel + standard axioms; sync.Map/atomics/channels as linearizable objects; pool concurrency beyond the modelled windows and 'eventually closed' are checked by the tie, not proved; liveness needs scheduler fairness; handlePkt itself is not tied.",
+  technique="Lean 4 proof (invariants over an interleaving transition system + sequential refinement) + schedule-forced correspondence via build-tag verif yield points (go test -overlay, synctest)",
+  design="§10 C13")
+
 def main():
     checks = []
     for pid in ALL:
